@@ -1,3 +1,3 @@
 SPECIFICATION Spec
-INVARIANTS LawsOnce EmitCast EmitCmp
+INVARIANTS LawsOnce EmitCast EmitCmp EmitTDCmp
 CHECK_DEADLOCK FALSE
